@@ -1,5 +1,5 @@
 """C18 — bad configuration is an error, never a crash (hand-written loader functions)."""
-from specs import loaders
+from specs import loaders, loadbalance
 
 
 def run(ck):
@@ -11,3 +11,5 @@ def run(ck):
     ck.out_of_scope += ['serde / serde_yaml generated and library code', 'TLS file loading', '"accepted configuration runs" (load-balancer member cycles need a termination argument)',
                         '--test vs runtime agreement']
     loaders.run_all(ck)
+    loadbalance.spec_lb_verify(ck)
+    ck.post_filter = lambda o: not o.label.startswith('C17/')
